@@ -28,6 +28,8 @@ CHECKS = {
          'sampled; UDP sockets simulated; announcements without AppSequence ignored as the library does; only rfc3986 and strcmp0 rules judged', '6 (C14)'),
  'C15': ('exploration', 'same simulated discovery sessions; the virtual clock timestamps every queue entry and datagram, half of the runs force boundary outcomes of the random draws; per message: count, initial delay, first gap window, doubling with cap, send raster, loop-back suppression',
          'sampled draws (boundary-biased); send raster tolerance 0.12 s; loop-back judged while the id is within the 200-id memory', '6 (C15)'),
+ 'C13': ('fault_enumeration', 'stream faults placed inside real requests of a simulated healthy session: truncation followed by EOF at every byte offset of the framing regions and of a sampled body window, wrong lengths, malformed chunking, 1-byte fragmentation, bad codings, structure-aware XML mutations and DOCTYPE/entity payloads, sent by a scripted raw client to provider and consumer endpoints; termination (EOF-spin counter), escape, response well-formedness, XXE canaries, unchanged state',
+         'truncation offsets complete inside the sampled window only; a silent open connection may keep a handler waiting (not decided); HTTP/0.9 request lines are answered by the standard library', '6 (C13)'),
 }
 TECH = 'deterministic simulation with fault injection (seeded scheduler + virtual clock + simulated network, fork per run, ddmin replay)'
 
